@@ -15,7 +15,10 @@ RULE = ("The same generated Stack trees as C18 (depth <= 4, width <= 3, hidden f
         "contexts recursively, the frame's own entry omitted only when its last context is exiting; the real summary must "
         "match entry for entry, be a StackSummary, survive pickle round trip, reach no frame object, and format_flat() must be "
         "header + summary.format() + leaf line + error lines. Non-trivial: tree with a hidden element inside a context or an "
-        "exiting last context; distinct = distinct IR.")
+        "exiting last context; distinct = distinct IR. Second leg: REAL stacks - extract() of a frame holding a generated "
+        "tree of plain / generator-based managers and exit stacks (the C09 space), with 0-3 elements inside contexts marked "
+        "hidden afterwards - summarised in all 8 combinations and compared with the same projection computed over the real "
+        "Stack object, plus pickle and format_flat decomposition.")
 ASSUMPTIONS = [
     "for context entries only filename, line and the function-name prefix are asserted (the parenthesised annotation is not)",
 ]
@@ -123,10 +126,42 @@ def check_tree(ws, interps, tree, out):
     return viols
 
 
+def real_cases():
+    from hypothesis import strategies as st
+    from checks import c09
+    return st.tuples(c09.roots(), st.lists(st.integers(0, 10 ** 6), min_size=0, max_size=3)).map(
+        lambda t: {"root": t[0], "hide_marks": t[1]})
+
+
+def check_real(ws, interps, case, out):
+    viols = []
+    hidden = 0
+    for interp in interps:
+        try:
+            res = ws[interp].request({"op": "ctxtree.summary", "root": case["root"], "hide_marks": case["hide_marks"]})
+        except WorkerDied as ex:
+            viols.append({"desc": "interpreter %s died (exit %r)" % (interp, ex.returncode), "interp": interp})
+            continue
+        out.per_interp[interp] += 1
+        hidden = res["stats"]["hidden"]
+        out.extra["real_stack_summaries"] = out.extra.get("real_stack_summaries", 0) + res["stats"]["combos"]
+        if res["obs"]:
+            viols.append({"desc": "real stack: %s on %s: %r" % (res["obs"][0]["kind"], interp, res["obs"][0]), "interp": interp})
+    out.note_case(case, hidden > 0, classes=["real_stack"] + (["real_stack.hidden_inside_context"] if hidden else []),
+                  n_eval=8 * len(interps))
+    return viols
+
+
 def shard(arg):
     out = Outcome()
     interps = arg["interps"]
     with WorkerSet(interps, hooks=False) as ws:
+        fail = hyp_search(real_cases(), lambda c: check_real(ws, interps, c, out), seed=arg["seed"] + 7,
+                          max_examples=arg["n"] // 3, shrink=arg["shrink"])
+        if fail:
+            v = fail["violations"][0]
+            out.violation(v["desc"], fail["case"], v["interp"], flaky=fail["flaky"])
+            return out
         fail = hyp_search(T.trees(), lambda t: check_tree(ws, interps, t, out), seed=arg["seed"], max_examples=arg["n"],
                           shrink=arg["shrink"])
         if fail:
@@ -148,6 +183,7 @@ def replay(ctx, data):
     out = Outcome()
     interps = [data["interp"]] if data.get("interp") in ALL else ALL
     with WorkerSet(interps, hooks=False) as ws:
-        for v in check_tree(ws, interps, data["case"], out):
+        fn = check_real if "hide_marks" in data["case"] else check_tree
+        for v in fn(ws, interps, data["case"], out):
             out.violation(v["desc"], data["case"], v["interp"])
     return out
